@@ -250,7 +250,7 @@ def eval_dispatch():
 PLATFORM_NOTE = {}
 
 
-def eval_platform():
+def eval_platform(groups=None):
     """harness/platform_vectors.cpp (C interface only: scalar multiplications over word-pattern scalars, hashing, sampling from a fixed stream,
     pairings, a WKD-IBE and an LQ-IBE run, everything as marshalled bytes) built natively on three back ends and as a freestanding i386
     executable that really runs under the ILP32 data model: all outputs must be identical line by line."""
@@ -286,8 +286,8 @@ def eval_platform():
         if cfg == ref_cfg:
             continue
         ref_lines = outs[ref_cfg]
-        diffs = [(a, b) for a, b in zip(ref_lines, lines) if a != b]
-        if diffs or len(lines) != len(ref_lines):
+        diffs = [(a, b) for a, b in zip(ref_lines, lines) if a != b and (groups is None or a.split()[0] in groups)]
+        if diffs or (groups is None and len(lines) != len(ref_lines)):
             first = diffs[0] if diffs else ("(%d lines)" % len(ref_lines), "(%d lines)" % len(lines))
             groups = sorted({a.split()[0] for a, _ in diffs})
             msgs.append("%s and %s disagree on %d of %d results (%s); first: '%s' vs '%s'" % (ref_cfg, cfg, len(diffs), len(ref_lines), ", ".join(groups[:6]), first[0], first[1]))
